@@ -1,0 +1,27 @@
+// Copyright (c) 2025, Peter Ohler, All rights reserved.
+
+package bag
+
+import (
+	"encoding/json"
+	"math/big"
+
+	"github.com/ohler55/slip"
+)
+
+// bigNumberToBag converts a bignum or long-float to the form the JSON and SEN
+// parsers use for a number outside the int64 and float64 range, a
+// json.Number, so that it stays a number in the bag.
+func bigNumberToBag(obj slip.Object) any {
+	switch val := obj.(type) {
+	case *slip.Bignum:
+		bi := (*big.Int)(val)
+		if bi.IsInt64() {
+			return bi.Int64()
+		}
+		return json.Number(bi.String())
+	case *slip.LongFloat:
+		return json.Number((*big.Float)(val).Text('g', -1))
+	}
+	return obj.Simplify()
+}
